@@ -68,9 +68,10 @@ type tconn interface {
 }
 
 type tconcAux struct {
-	preloaded int
-	mode      int
-	otherErrs []string
+	halfSilent bool
+	preloaded  int
+	mode       int
+	otherErrs  []string
 }
 
 func scTConc(r *Run) {
@@ -103,12 +104,39 @@ func scTConc(r *Run) {
 		kem := newKEM()
 		srv.KEM = kem
 	}
-	tc := NewTClient(r, n, srv, ClientOpts{Hidden: hidden, HSTimeout: 2 * time.Second})
+	// how the handshake is bounded: by the relative timeout, by an absolute deadline, or by both
+	bound := r.Intn("cfg", 3)
+	copts := ClientOpts{Hidden: hidden, HSTimeout: 2 * time.Second}
+	if bound > 0 {
+		dl := time.Now().Add(2 * time.Second)
+		copts.Mutate = func(cfg *transport.ClientConfig) {
+			cfg.HSDeadline = dl
+			if bound == 1 {
+				cfg.HSTimeout = 0
+			} else {
+				cfg.HSTimeout = 5 * time.Second // (the deadline is the binding one)
+			}
+		}
+	}
+	r.SetCfg("handshake-bound", []string{"HSTimeout", "HSDeadline", "both, deadline first"}[bound])
+	tc := NewTClient(r, n, srv, copts)
 	var conn tconn = tc.C
 	var peerWrite func([]byte) error
 	handshakeInProgram := mode == 1 || r.Intn("cfg", 3) == 0
 	if mode == 2 {
 		handshakeInProgram = false
+	}
+	// a server that falls silent in the middle of the handshake: its first answer arrives, the second is lost
+	if mode == 0 && !hidden && r.Intn("cfg", 4) == 0 {
+		handshakeInProgram = true
+		aux.halfSilent = true
+		n.Tap = func(d *Dgram) bool {
+			if len(d.Data) > 0 && d.Data[0] == 0x04 {
+				r.CountFault("server-auth-lost", 1)
+				return false
+			}
+			return true
+		}
 	}
 	if !handshakeInProgram {
 		if err := tc.C.Handshake(); err != nil {
@@ -364,6 +392,10 @@ func scServerLifecycle(r *Run, n *Net, hidden bool) {
 	ts.KEM = newKEM()
 	ts.Leaf = ts.PKI.Leaf(ts.Key.Public, 24*time.Hour, ts.Name)
 	ts.EP = n.Listen("server", ts.Addr, nil)
+	if r.Intn("cfg", 3) == 0 {
+		ts.EP.CloseErr = errors.New("sim: close reports an I/O error") // every Close caller must see the same result
+		r.CountFault("socket-close-reports-error", 1)
+	}
 	srv, err := transport.NewServer(ts.EP, transport.ServerConfig{KeyPair: ts.Key, KEMKeyPair: ts.KEM, Certificate: ts.Leaf, Intermediate: ts.PKI.Int,
 		HandshakeTimeout: 2 * time.Second, ClientVerify: &transport.VerifyConfig{InsecureSkipVerify: true}, IsHidden: hidden, MaxPendingConnections: 1 + r.Intn("cfg", 3)})
 	must(err)
@@ -561,8 +593,8 @@ func tconcAfter(r *Run) {
 	r.Obligation(int64(len(evs)))
 	for _, e := range evs {
 		// a handshake against a silent server is released by its own timeout (HSTimeout = 2 s), with a timeout error
-		if aux.mode == 1 && e.Op == tHandshake && e.Out > 6000 {
-			r.Violate("C17/handshake-timeout-not-honoured", "Handshake against a server that never answers returned only after %d ms (when the connection was closed); HSTimeout is 2000 ms", e.Out)
+		if (aux.mode == 1 || aux.halfSilent) && e.Op == tHandshake && e.Out > 7500 {
+			r.Violate("C17/handshake-timeout-not-honoured", "Handshake against a server that never answers (or falls silent after its first answer: %v) returned only after %d ms (when the connection was closed); the handshake timeout / deadline is 2000 ms", aux.halfSilent, e.Out)
 			break
 		}
 	}
